@@ -60,6 +60,12 @@ def gen_case_archive(seed, i):
                                             'replace(2, concat("L", line_number()))']),
                         "ident": "rewriter", "scan": "*", "unmatched": False})
         method = r.choice(["collect_by_line", "next_by_line", "collect_by_line", "collect_paths"])
+    if r.random() < 0.1:
+        # a member that never starts (run-mode: no-run), in a serial run: it still gets its directory, files and a truthful manifest
+        members[r.randrange(len(members))]["norun"] = True
+        method = r.choice(["collect_paths", "fast_forward_paths", "next_paths"])
+    if r.random() < 0.06:
+        recs = []      # a named file without a single line: no member ever tracks a line
     case = {"recs": recs, "members": members, "method": method}
     if i % 5 == 4:
         # the file and the CsvPaths in another dialect
@@ -74,6 +80,8 @@ def member_text(m):
         parts.append(f"id: {m['ident']}")
     if m.get("unmatched"):
         parts.append("unmatched-mode: keep")
+    if m.get("norun"):
+        parts.append("run-mode: no-run")
     c = ("~ " + " ".join(parts) + " ~ ") if parts else ""
     return f"{c}$[{m['scan']}][{m['match']}]"
 
